@@ -91,3 +91,22 @@ Definition wf_col_ib (rows : list (list Z)) : Z :=
 
 Definition run_looph4 (rows : list (list Z)) : list Z := run_looph3 rows ++ [wf_col_lh rows].
 Definition run_ibh3 (rows : list (list Z)) : list Z := run_ibh2 rows ++ [wf_col_ib rows].
+
+From V Require Import Model.LevelCons.
+
+Definition cons_col_lh (rows : list (list Z)) : Z :=
+  let '(br, ar, op, st, dm) := split_lh rows in
+  match decode br, decode ar, op with
+  | Some (_, h), Some (_, ha), lvl :: _ => cons_level_col h ha lvl
+  | _, _, _ => 0
+  end.
+
+Definition cons_col_ib (rows : list (list Z)) : Z :=
+  let '(br, ar, op, st) := split_ib rows in
+  match decode br, decode ar, op with
+  | Some (_, h), Some (_, ha), lvl :: _ => cons_level_col h ha lvl
+  | _, _, _ => 0
+  end.
+
+Definition run_looph5 (rows : list (list Z)) : list Z := run_looph4 rows ++ [cons_col_lh rows].
+Definition run_ibh4 (rows : list (list Z)) : list Z := run_ibh3 rows ++ [cons_col_ib rows].
